@@ -15,6 +15,7 @@ import (
 	"raven/internal/server/message"
 	"raven/internal/server/selection"
 	"raven/internal/server/uid"
+	"raven/internal/server/utils"
 )
 
 // writeTimeout is how long a single reply may take to be written to the client
@@ -44,7 +45,7 @@ func handleClient(s *IMAPServer, conn net.Conn, state *models.ClientState) {
 		}
 
 		fmt.Printf("Client: %s\n", line)
-		parts := strings.Fields(line)
+		parts := utils.SplitCommandLine(line)
 		if len(parts) < 2 {
 			// The only field is the tag: answer with a tagged BAD so that the
 			// client sees a completion for what it sent (RFC 3501 section 7.1.3)
